@@ -174,3 +174,15 @@ func utilRange(c *XCase, op *dbm.Op, key func(int) []byte) util.Range {
 	}
 	return r
 }
+
+// excludedSet returns the generator switches turned on by open known findings
+// (passed by the driver in VERIF_EXCLUDE).
+func excludedSet() map[string]bool {
+	m := map[string]bool{}
+	for _, x := range strings.Split(os.Getenv("VERIF_EXCLUDE"), ",") {
+		if x != "" {
+			m[x] = true
+		}
+	}
+	return m
+}
